@@ -12,7 +12,8 @@ use std::collections::{BTreeMap, HashMap, HashSet};
 use std::time::Instant;
 
 pub trait System: Sync {
-    type State: Clone + Send + Sync;
+    /// `Send` only: a state is owned by exactly one worker at a time (it may contain `Cell`s)
+    type State: Clone + Send;
     type Action: Clone + Send + Sync + std::fmt::Debug + Serialize + DeserializeOwned;
 
     /// Constructor actions (each yields one initial state).
@@ -174,8 +175,18 @@ pub fn explore<S: System>(sys: &S, cfg: &ExploreCfg) -> ExploreResult {
 
         let seen_ref = &seen;
         let chunk = (frontier.len() / (rayon::current_num_threads() * 8)).max(1);
-        let outs: Vec<ChunkOut<S>> = frontier
-            .par_chunks(chunk)
+        // owned chunks: states need not be Sync
+        let mut owned: Vec<Vec<(u32, S::State)>> = vec![];
+        let mut it = std::mem::take(&mut frontier).into_iter();
+        loop {
+            let c: Vec<(u32, S::State)> = it.by_ref().take(chunk).collect();
+            if c.is_empty() {
+                break;
+            }
+            owned.push(c);
+        }
+        let outs: Vec<ChunkOut<S>> = owned
+            .into_par_iter()
             .map(|states| {
                 let mut out = ChunkOut::<S> {
                     cands: vec![],
@@ -185,7 +196,7 @@ pub fn explore<S: System>(sys: &S, cfg: &ExploreCfg) -> ExploreResult {
                     violation: None,
                 };
                 let mut local: HashSet<Vec<u8>> = HashSet::new();
-                'outer: for (id, st) in states {
+                'outer: for (id, st) in states.iter() {
                     for a in sys.actions(st) {
                         let mut s2 = st.clone();
                         out.transitions += 1;
